@@ -255,6 +255,12 @@ def fam_deepstack(rng):
         n2 = rng.choice([0, n1 // 2, n1, n1 + 1])
         post = ['pop', 'start'] * n2
         main = [m for m in c['main'] if m != 'destroy']
+        if rng.random() < 0.3:
+            # one push before the very first call of yylex (yy_start is not initialised yet), undone by an
+            # early action: scanning goes on in the start condition that was saved then
+            pre, post = ['push:%d' % rng.randrange(nsc)], []
+            k = rng.choice([0, 1, 2])
+            c['acts'][k] = ['pop', 'start'] + c['acts'].get(k, [])
         c['main'] = pre + main + post + ['destroy']
         return c
     return rs, cfg, gen
